@@ -39,6 +39,17 @@ BROKEN_BASE = [
 ]
 
 
+# members of a grouped value are typed one by one, whatever their siblings are (constant / run-time, dotted / grouped notation)
+GROUPS = [
+    ("font.bold: true\n    font.pointSize: a.text", False), ("font { family: \"Mono\"; bold: a.text }", False), ("font.bold: a.flag\n    font.pointSize: a.text", False),
+    ("font.pointSize: a.dval", False), ("font.bold: true\n    font.pointSize: a.dval", False), ("font.pointSize: 12\n    font.bold: a.ival", False),
+    ("font { pointSize: a.flag ? 1 : 2; bold: true; italic: a.items }", False), ("font.family: a.flag\n    font.italic: false", False),
+    ("font.family: \"Mono\"\n    font.bold: a.flag ? 1 : 0", False), ("font { bold: true; pointSize: 12; family: a.ival }", False),
+    ("font.bold: true\n    font.pointSize: a.ival", True), ("font { family: a.text; bold: true; italic: a.flag }", True), ("font.pointSize: a.ival + 1", True),
+    ("font { family: \"Mono\"; bold: false }", True), ("font.bold: a.flag\n    font.italic: !a.flag\n    font.pointSize: 9", True),
+]
+
+
 # list / subscript / implicit-this spellings (docs/language.md): (property or "handler", text, accepted?)
 LISTS = [
     ("flag", "a.items[0].isEmpty()", True), ("text", "a.items[0] + \"x\"", True), ("text", "a.items[a.ival]", True), ("text", "a.items[a.uval]", True),
@@ -175,6 +186,10 @@ def run(chk):
         src = P.HEAD + "  TSource { id: s0\n    " + text + "\n  }\n}\n"
         reqs.append({"id": "h%d" % n, "src": src, "type_name": "Doc", "modes": ["generate"]})
         meta["h%d" % n] = ("brokenbase-good" if ok else "unsupported", "binding", {"text": text, "why": "handler signature: " + what}, src)
+    for n, (text, ok) in enumerate(GROUPS):
+        src = P.HEAD + "  TSource { id: t0\n    " + text + "\n  }\n}\n"
+        reqs.append({"id": "m%d" % n, "src": src, "type_name": "Doc", "modes": ["generate"]})
+        meta["m%d" % n] = ("brokenbase-good" if ok else "unsupported", "binding", {"text": text, "why": "member of a grouped value bound to a value of another type"}, src)
     for n, (text, ok) in enumerate(BROKEN_BASE):
         src = P.HEAD + "  TBroken { id: br }\n  TSource { id: t0\n    " + text + "\n  }\n}\n"
         reqs.append({"id": "b%d" % n, "src": src, "type_name": "Doc", "modes": ["generate"]})
